@@ -914,6 +914,8 @@ impl Context {
             | "false" | "fn" | "for" | "if" | "impl" | "in" | "let" | "loop" | "match" | "mod"
             | "move" | "mut" | "pub" | "ref" | "return" | "self" | "static" | "struct"
             | "super" | "trait" | "true" | "type" | "unsafe" | "use" | "where" | "while" => true,
+            // keywords added in the 2018 edition
+            "await" | "try" => true,
             // reserved keywords
             "abstract" | "async" | "become" | "box" | "do" | "final" | "macro" | "override"
             | "priv" | "typeof" | "unsized" | "virtual" | "yield" => true,
